@@ -68,6 +68,9 @@ type Hist struct {
 	AllOffsets bool `json:"allOffsets,omitempty"`
 	Part       int  `json:"part,omitempty"` // corrupt mode: evaluate images with index % Parts == Part
 	Parts      int  `json:"parts,omitempty"`
+	// mixed mode (mixed.go): Cap = number of large records per segment; one letter per entry, S = small value,
+	// L = large value; empty = every one of the 2^(K+M) size vectors (a job part takes vectors with index % Parts == Part)
+	Sizes string `json:"sizes,omitempty"`
 }
 
 // cleanLog: the base image is a cleanly closed log of K synced entries (single-field and run corruption)
@@ -76,6 +79,16 @@ func (h Hist) cleanLog() bool { return h.Mode == "corrupt" || h.Mode == "runs" }
 func (h Hist) ID() string {
 	if h.Mode == "ctrl" {
 		return fmt.Sprintf("ctrl/v2/seg%d/k%d", h.Cap, h.K)
+	}
+	if h.Mode == "mixed" {
+		s := fmt.Sprintf("mixed/%s/capL%d/k%dm%d", h.Codec, h.Cap, h.K, h.M)
+		if h.Sizes != "" {
+			s += "/" + h.Sizes
+		}
+		if h.Parts > 1 {
+			s += fmt.Sprintf("/part%d", h.Part)
+		}
+		return s
 	}
 	s := fmt.Sprintf("%s/%s/%s/cap%d/k%d", h.Mode, h.Codec, h.Profile, h.Cap, h.K)
 	if h.Mode == "crash" {
@@ -1135,7 +1148,7 @@ func stuckFunction() string {
 	buf := make([]byte, 1<<20)
 	buf = buf[:runtime.Stack(buf, true)]
 	for _, blk := range strings.Split(string(buf), "\n\n") {
-		if !strings.Contains(blk, "main.(*base).observe") {
+		if !strings.Contains(blk, "main.(*base).observe") && !strings.Contains(blk, "main.(*mixedBase).observe") {
 			continue
 		}
 		var fs []string
@@ -1692,6 +1705,10 @@ func runJob(job Job) (res *JobResult) {
 		runCtrl(job, res)
 		return res
 	}
+	if job.Hist.Mode == "mixed" {
+		runMixed(job, res)
+		return res
+	}
 	b := runHistory(job.Hist)
 	en := &engine{b: b, job: job, res: res, seen: map[uint64]bool{}, root: filepath.Join(scratch, "eval"), nviol: map[string]int{}}
 	if job.Deadline != 0 {
@@ -2059,6 +2076,30 @@ func plan(tier string) []Hist {
 			hs = append(hs, Hist{Mode: "runs", Codec: cd, Profile: "large", Cap: 2, K: 3, Sync: "each"}) // ~3 KiB records: sector/page/record boundaries only
 		}
 	}
+	// records of different sizes (mixed.go): every size vector in {S,L}^n, index files of every closed segment bad,
+	// read everything / extend across a rollover / read / reopen / read (Cap = large records per segment)
+	for _, cd := range []string{"v2", "v1"} {
+		for _, capL := range []int{1, 2, 3} {
+			lo, hi := 4, 6
+			if tier == "thorough" {
+				lo, hi = 2, 8
+			}
+			for n := lo; n <= hi; n++ {
+				for _, m := range []int{0, 1, 2} {
+					if tier != "thorough" && (m == 1 || capL == 1 && n != 6 || cd == "v1" && (capL == 3 || n == 6 && capL == 2)) {
+						continue
+					}
+					if m > n {
+						continue
+					}
+					parts := max(1, (1<<n)/16)
+					for pt := 0; pt < parts; pt++ {
+						hs = append(hs, Hist{Mode: "mixed", Codec: cd, Cap: capL, K: n - m, M: m, Part: pt, Parts: parts})
+					}
+				}
+			}
+		}
+	}
 	// controller level (Cap = WAL segment size in bytes here)
 	hs = append(hs, Hist{Mode: "ctrl", Codec: "v2", Cap: 128, K: 4})
 	if tier == "thorough" {
@@ -2137,6 +2178,9 @@ func main() {
 		if h.Mode == "ctrl" {
 			return 500000
 		}
+		if h.Mode == "mixed" {
+			return 40000 * (1 << (h.K + h.M)) / max(h.Parts, 1) / 16
+		}
 		if h.Mode == "runs" {
 			w := 3000 * h.K * (h.K + 2)
 			if h.AllOffsets {
@@ -2209,7 +2253,7 @@ func main() {
 		run.Add("distinct_images", r.Images)
 		run.DistinctN(r.Images)
 		for k, v := range r.Counters {
-			if k == "dirty_pages_max" {
+			if k == "dirty_pages_max" || k == "mixed_segments_max" {
 				if int64(v) > run.Get(k) {
 					run.Add(k, v-run.Get(k))
 				}
@@ -2266,8 +2310,8 @@ func spawnAll(exe string, job Job) *JobResult {
 			total.Images += r.Images
 			total.WallMs += r.WallMs
 			for k, v := range r.Counters {
-				if k == "dirty_pages_max" {
-					total.Counters[k] = v
+				if k == "dirty_pages_max" || k == "mixed_segments_max" {
+					total.Counters[k] = max(total.Counters[k], v)
 				} else {
 					total.Counters[k] += v
 				}
